@@ -2594,14 +2594,15 @@ def l_in(info, a, b):
 
 def cmpxchg(info, a, b):
     e = []
+    # the accumulator al/ax/eax is compared with the destination
     c = eax
-    if isinstance(b, ExprSlice): c = ExprSlice(c,b.start,b.stop)
+    if a.get_size() != 32: c = ExprSlice(c, 0, a.get_size())
     cond = a-c
-    e.append(ExprAff(zf, ExprCond(cond,
-                                 ExprInt_from(zf, 0),
-                                 ExprInt_from(zf, 1))))
+    # all six status flags are those of cmp accumulator, destination
+    e+=l_cmp(info, c, a)
+    # not equal: the destination is loaded into the accumulator
     e.append(ExprAff(c, ExprCond(cond,
-                                 b,
+                                 a,
                                  c)
                      ))
     e.append(ExprAff(a, ExprCond(cond,
